@@ -227,7 +227,7 @@ structure FDef where
 namespace FDef
 def flat (f : FDef) : List Tk := f.specs ++ (f.d.flat ++ bodyFlat f.body)
 def ntoks (f : FDef) : Nat := f.specs.length + f.d.ntoks + itemsNtoks f.body + 2
-def fuel (f : FDef) : Nat := max (f.specs.length + 1) (max (f.d.fuel + starsNtoks (dStars f.d) + 5) (itemsFuel f.body + 2)) + 2
+def fuel (f : FDef) : Nat := max (f.specs.length + 1) (max (f.d.fuel + f.d.ntoks + 5) (itemsFuel f.body + 2)) + 2
 /-- the declarator as `_DeclInfo` (no initializer) -/
 def di (n : Nat) (f : FDef) : DI :=
   { ms := f.d.chain (n + f.specs.length), x := dName f.d, tco := dTco (n + f.specs.length) f.d, init := .none }
@@ -246,7 +246,6 @@ structure WFFDef (f : FDef) : Prop where
   specVals : SpecVals f.specs
   sawType : sawAfter false f.specs = true
   wfd : WFD f.d
-  noParen : NoParen f.d
   body : ∀ it ∈ f.body, WFItem it
 
 theorem specs_head {l : List Tk} (hl : SpecToks false l) (hsaw : sawAfter false l = true) :
@@ -271,7 +270,7 @@ theorem funcDef_ok (f : FDef) (hwf : WFFDef f) (hty : env.ty (dName f.d) = false
   obtain ⟨G, rfl⟩ : ∃ G, F = G + 1 := ⟨F - 1, by simp only [FDef.fuel] at hF; omega⟩
   simp only [FDef.fuel] at hF
   obtain ⟨t, r, hsp, hk0, hk1, hk2, hk3, hk4, hk5⟩ := specs_head hwf.specToks hwf.sawType
-  obtain ⟨k1, v1, r1, hd1, hkd⟩ := declarator_head hwf.wfd hwf.noParen
+  obtain ⟨k1, v1, r1, hd1, hkd⟩ := declarator_head hwf.wfd
   have hs0 : SeesT env s (f.specs ++ (f.d.flat ++ (bodyFlat f.body ++ rest))) := by
     simpa [FDef.flat, List.append_assoc] using hs
   -- peek, no `;`
@@ -285,7 +284,7 @@ theorem funcDef_ok (f : FDef) (hwf : WFFDef f) (hty : env.ty (dName f.d) = false
     intro k v r' h
     simp only [hd1, List.cons_append, List.cons.injEq, Prod.mk.injEq] at h
     rw [← h.1.1]
-    rcases hkd with rfl | rfl <;> decide
+    rcases hkd with rfl | rfl | rfl <;> decide
   obtain ⟨s1, h1, hs1, hi1⟩ := specs_loop f.specs {} false false none sb _ G hwf.specToks hfo hsb' (by omega) (fun _ => rfl)
   have hne := sawAfter_ne_nil hwf.sawType
   have hsome : (if (false || !f.specs.isEmpty) = true then some (foldSpec sb.idx {} f.specs) else none) =
@@ -296,7 +295,7 @@ theorem funcDef_ok (f : FDef) (hwf : WFFDef f) (hty : env.ty (dName f.d) = false
   rw [hsome, hwf.sawType] at h1
   have h1' : run G (.declSpecsLoop none false none) sb = .ok (some (foldSpec sb.idx {} f.specs), true, firstCoord none sb.idx f.specs) s1 := h1
   -- scan, reset, declarator
-  obtain ⟨s3, hscan, s4, h4, hs4, hi4⟩ := scan_ok f.d hwf.wfd hwf.noParen s1 _ hs1 G (by omega)
+  obtain ⟨s3, bsc, hscan, s4, h4, hs4, hi4⟩ := scan_ok f.d hwf.wfd s1 _ hs1 G (by omega)
   obtain ⟨s5, h5, hs5, hi5⟩ := parse_declarator f.d hwf.wfd s4 _ hs4
     (by intro k v r' h; simp only [bodyFlat, List.cons_append, List.cons.injEq, Prod.mk.injEq] at h; rw [← h.1.1]; exact ⟨by decide, by decide⟩)
     G (by omega)
@@ -362,11 +361,11 @@ theorem extDcl_ok (dc : Dcl) (hwf : WFDcl dc) (hty : ∀ x ∈ dc.names, env.ty 
     ∃ s', run F .externalDeclaration s = .ok (dc.vals s.idx) s' ∧ SeesT env s' rest ∧ s'.idx = s.idx + dc.ntoks := by
   obtain ⟨G, rfl⟩ : ∃ G, F = G + 1 := ⟨F - 1, by omega⟩
   simp only [Dcl.fuel] at hF
-  have hF1 : dc.first.d.fuel + starsNtoks (dStars dc.first.d) + DeclSkel.ofuel dc.first.init + 8 ≤ G := by
+  have hF1 : dc.first.d.fuel + dc.first.d.ntoks + DeclSkel.ofuel dc.first.init + 8 ≤ G := by
     have : dc.first.fuel ≤ G := by omega
     simpa [IDc.fuel] using this
   obtain ⟨t, r, hsp, hk0, hk1, hk2, hk3, hk4, hk5⟩ := specs_head hwf.specToks hwf.sawType
-  obtain ⟨k1, v1, r1, hd1, hkd⟩ := declarator_head hwf.first.wfd hwf.first.noParen
+  obtain ⟨k1, v1, r1, hd1, hkd⟩ := declarator_head hwf.first.wfd
   obtain ⟨k2, v2, r2, hhd, hend⟩ := restFlat_head dc.more rest
   -- what follows the first declarator
   let tail1 : List Tk := (match dc.first.init with | none => [] | some e => ("EQUALS", "=") :: e.flat) ++ (k2, v2) :: r2
@@ -384,7 +383,7 @@ theorem extDcl_ok (dc : Dcl) (hwf : WFDcl dc) (hty : ∀ x ∈ dc.names, env.ty 
     intro k v r' h
     simp only [hd1, List.cons_append, List.cons.injEq, Prod.mk.injEq] at h
     rw [← h.1.1]
-    rcases hkd with rfl | rfl <;> decide
+    rcases hkd with rfl | rfl | rfl <;> decide
   obtain ⟨s1, h1, hs1, hi1⟩ := specs_loop dc.specs {} false false none sb _ G hwf.specToks hfo hsb' (by omega) (fun _ => rfl)
   have eb : sb.idx = s.idx := by omega
   rw [eb] at h1 hi1
@@ -396,7 +395,7 @@ theorem extDcl_ok (dc : Dcl) (hwf : WFDcl dc) (hty : ∀ x ∈ dc.names, env.ty 
     | cons t r => rfl
   rw [hsome, hwf.sawType] at h1
   have h1' : run G (.declSpecsLoop none false none) sb = .ok (some (foldSpec s.idx {} dc.specs), true, firstCoord none s.idx dc.specs) s1 := h1
-  obtain ⟨s3, hscan, s4, h4, hs4, hi4⟩ := scan_ok dc.first.d hwf.first.wfd hwf.first.noParen s1 _ hs1 G (by omega)
+  obtain ⟨s3, bsc, hscan, s4, h4, hs4, hi4⟩ := scan_ok dc.first.d hwf.first.wfd s1 _ hs1 G (by omega)
   -- the token after the declarator: `=`, `,` or `;`
   obtain ⟨k3, v3, r3, htl, hk3e⟩ : ∃ k v r, tail1 = (k, v) :: r ∧ (k = "EQUALS" ∨ EndsItem k) := by
     cases hin : dc.first.init with
